@@ -574,6 +574,13 @@ def rule_cleanup(run):
         def __init__(self, **kw):
             self.__dict__.update(kw)
 
+        def __getattr__(self, name):  # any other IR class: a distinct class no model statement is an instance of
+            if name.startswith("__"):
+                raise AttributeError(name)
+            c = type(name, (), {})
+            self.__dict__[name] = c
+            return c
+
     def _isinst(v, t):
         ts = t if isinstance(t, tuple) else (t,)
         return any(isinstance(x, type) and isinstance(v, x) for x in ts)
